@@ -219,10 +219,13 @@ Proof.
 Qed.
 
 (* ---- frame invariant ---- *)
-Definition Fr (F : list entry) (env wp : list (N * N)) : Prop :=
+(* rs = true (params deactivated at the end of every template instance): no param entry is active unless the
+   running template instance declared it, so an unbound-locally name finds nothing in the frame whatever was
+   passed; rs = false: only for names that were not passed *)
+Definition Fr (rs : bool) (F : list entry) (env wp : list (N * N)) : Prop :=
   Forall not_ctx F /\
   (forall n b, lookup n env = Some b -> loc n F = Some b) /\
-  (forall n, lookup n env = None -> ~ In n (map fst wp) -> loc n F = None) /\
+  (forall n, lookup n env = None -> (rs = true \/ ~ In n (map fst wp)) -> loc n F = None) /\
   (forall n, lookup n env = None -> has_var n F = false) /\
   (forall n, pval n F = lookup n (rev wp)).
 
@@ -233,9 +236,9 @@ Proof.
   - right. eauto.
 Qed.
 
-Lemma Fr_push_var : forall F env wp n b, Fr F env wp -> lookup n env = None -> Fr (EVar n b :: F) ((n, b) :: env) wp.
+Lemma Fr_push_var : forall rs F env wp n b, Fr rs F env wp -> lookup n env = None -> Fr rs (EVar n b :: F) ((n, b) :: env) wp.
 Proof.
-  intros F env wp n b [H0 [Ha [Hb [Hc Hd]]]] Hn. repeat split.
+  intros rs F env wp n b [H0 [Ha [Hb [Hc Hd]]]] Hn. repeat split.
   - constructor; simpl; auto.
   - intros m b'. simpl. destruct (N.eqb n m); auto.
   - intros m. simpl. destruct (N.eqb n m); try discriminate. auto.
@@ -243,16 +246,16 @@ Proof.
   - intros m. simpl. auto.
 Qed.
 
-Lemma Fr_push_frame : forall F env wp e, Fr F env wp -> Fr (EFrame e :: F) env wp.
+Lemma Fr_push_frame : forall rs F env wp e, Fr rs F env wp -> Fr rs (EFrame e :: F) env wp.
 Proof.
-  intros F env wp e [H0 [Ha [Hb [Hc Hd]]]]. repeat split; simpl; auto.
+  intros rs F env wp e [H0 [Ha [Hb [Hc Hd]]]]. repeat split; simpl; auto.
   constructor; simpl; auto.
 Qed.
 
-Lemma Fr_act : forall F env wp n v, Fr F env wp -> lookup n env = None -> pval n F = Some v ->
-  Fr (act n F) ((n, v) :: env) wp.
+Lemma Fr_act : forall rs F env wp n v, Fr rs F env wp -> lookup n env = None -> pval n F = Some v ->
+  Fr rs (act n F) ((n, v) :: env) wp.
 Proof.
-  intros F env wp n v [H0 [Ha [Hb [Hc Hd]]]] Hn Hp. repeat split.
+  intros rs F env wp n v [H0 [Ha [Hb [Hc Hd]]]] Hn Hp. repeat split.
   - apply act_not_ctx; auto.
   - intros m b'. simpl. destruct (N.eqb n m) eqn:E.
     + apply N.eqb_eq in E. subst. intros X. inversion X; subst. apply act_loc_same; auto.
@@ -352,27 +355,34 @@ Lemma not_ctx_params : forall l, Forall not_ctx (map (fun p => EParam (fst p) (s
 Proof. induction l; simpl; constructor; simpl; auto. Qed.
 
 (* template-start frames: only parameter entries *)
-Definition TF (F : list entry) (wp : list (N * N)) : Prop :=
+Definition TFw (F : list entry) (wp : list (N * N)) : Prop :=
   Forall not_ctx F /\ (forall n, has_var n F = false) /\ (forall n, pval n F = lookup n (rev wp)) /\
   (forall n b, loc n F = Some b -> pval n F <> None).
+
+(* between template instances: with the repair no param is active *)
+Definition TF (rs : bool) (F : list entry) (wp : list (N * N)) : Prop :=
+  TFw F wp /\ (rs = true -> forall n, loc n F = None).
 
 Lemma loc_params_only : forall n b l, loc n (map (fun p => EParam (fst p) (snd p)) l) = Some b -> False.
 Proof. induction l; simpl; intros; try discriminate. auto. Qed.
 
-Lemma TF_params : forall wp, TF (rev (map (fun p => EParam (fst p) (snd p)) wp)) wp.
+Lemma TF_params : forall rs wp, TF rs (rev (map (fun p => EParam (fst p) (snd p)) wp)) wp.
 Proof.
-  intros. rewrite <- map_rev. repeat split.
+  intros. rewrite <- map_rev. split; [repeat split|].
   - apply not_ctx_params.
   - intros. apply has_var_params.
   - intros. apply pval_params.
   - intros n b H. exfalso. eapply loc_params_only; eauto.
+  - intros _ n. destruct (loc n (map (fun p => EParam (fst p) (snd p)) (rev wp))) eqn:E; auto.
+    exfalso. eapply loc_params_only; eauto.
 Qed.
 
-Lemma TF_Fr : forall F wp, TF F wp -> Fr F [] wp.
+Lemma TF_Fr : forall rs F wp, TF rs F wp -> Fr rs F [] wp.
 Proof.
-  intros F wp [H0 [H1 [H2 H3]]]. repeat split; auto.
+  intros rs F wp [[H0 [H1 [H2 H3]]] H4]. repeat split; auto.
   - simpl; intros; discriminate.
-  - intros n _ Hn. destruct (loc n F) eqn:E; auto. exfalso. apply H3 in E. rewrite H2 in E.
+  - intros n _ [Hr | Hn]; [apply H4; assumption|].
+    destruct (loc n F) eqn:E; auto. exfalso. apply H3 in E. rewrite H2 in E.
     destruct (lookup n (rev wp)) eqn:E2; try congruence. apply lookup_in in E2. apply Hn.
     rewrite map_rev in E2. apply in_rev in E2. auto.
 Qed.
@@ -388,7 +398,7 @@ Proof.
   - destruct (N.eqb n0 n); simpl; auto. destruct (fl n true F); simpl in *. destruct (N.eqb n0 m); auto.
 Qed.
 
-Lemma TF_act : forall F wp n, TF F wp -> TF (act n F) wp.
+Lemma TFw_act : forall F wp n, TFw F wp -> TFw (act n F) wp.
 Proof.
   intros F wp n [H0 [H1 [H2 H3]]]. repeat split.
   - apply act_not_ctx; auto.
@@ -453,17 +463,21 @@ Proof.
   specialize (Hv n0). rewrite N.eqb_refl in Hv. discriminate.
 Qed.
 
-Lemma TF_deact : forall F wp, TF F wp -> TF (map deact1 F) wp.
+Lemma TF_deact : forall rs F wp, TFw F wp -> TF rs (map deact1 F) wp.
 Proof.
-  intros F wp [H0 [H1 [H2 H3]]]. repeat split.
+  intros rs F wp [H0 [H1 [H2 H3]]]. split; [repeat split|].
   - apply deact1_not_ctx; auto.
   - intros. rewrite deact1_has_var. auto.
   - intros. rewrite deact1_pval. auto.
   - intros n b H. rewrite deact1_loc in H by assumption. discriminate.
+  - intros _ n. apply deact1_loc; assumption.
 Qed.
 
 Section Main.
   Variable rs : bool.
+  Variable strict : bool.
+  (* without the repair (rs = false) the guard of finding K-C01-1 is needed *)
+  Hypothesis Hmode : rs = false -> strict = true.
   Variable genv : list (N * N).
   Let GL := gseg genv.
   Let g := length GL.
@@ -518,8 +532,8 @@ Section Main.
   (* properties proved by induction on the execution tree *)
   Definition normalP (i : ins) : Prop :=
     forall wp env F R e dn',
-      Good F R -> Fr F env wp ->
-      ok_ins true (map fst wp) i (map fst env) = Some dn' ->
+      Good F R -> Fr rs F env wp ->
+      ok_ins strict (map fst wp) i (map fst env) = Some dn' ->
       (is_decl i = true -> frame_pushed_l e (F ++ ECtx :: R) = true) ->
       exec_ins rs e i (st (F ++ ECtx :: R) g) =
         Some (match i with Var n b => st (EVar n b :: F ++ ECtx :: R) g | _ => st (F ++ ECtx :: R) g end,
@@ -530,20 +544,20 @@ Section Main.
     match i with
     | Tmpl e ps body =>
         forall wp F R par dn0,
-          Good F R -> TF F wp ->
+          Good F R -> TF rs F wp ->
           ok_params ps [] = Some dn0 ->
-          is_some (ok_seq (fun x => ok_ins true (map fst wp) x) body dn0) = true ->
+          is_some (ok_seq (fun x => ok_ins strict (map fst wp) x) body dn0) = true ->
           exists F', exec_ins rs par i (st (F ++ ECtx :: R) g) =
                        Some (st (F' ++ ECtx :: R) g, snd (spec_ins genv wp i []))
-                     /\ TF F' wp
+                     /\ TF rs F' wp
     | _ => True
     end.
 
   (* a sequence of ordinary instructions: only xsl:variable pushes stay on the stack *)
   Lemma seq_lemma : forall body, Forall normalP body ->
     forall wp env F R e dn',
-      Good F R -> Fr F env wp ->
-      ok_seq (fun x => ok_ins true (map fst wp) x) body (map fst env) = Some dn' ->
+      Good F R -> Fr rs F env wp ->
+      ok_seq (fun x => ok_ins strict (map fst wp) x) body (map fst env) = Some dn' ->
       (existsb is_decl body = true -> frame_pushed_l e (F ++ ECtx :: R) = true) ->
       exists V, Forall is_varE V /\
         exec_seq (fun x => exec_ins rs e x) body (st (F ++ ECtx :: R) g) =
@@ -552,7 +566,7 @@ Section Main.
   Proof.
     induction 1 as [|i body Hi Hb IH]; intros wp env F R e dn' HG HF Hok Hfp.
     - exists []. simpl. repeat split; auto.
-    - cbn [ok_seq] in Hok. destruct (ok_ins true (map fst wp) i (map fst env)) as [dn1|] eqn:E1; try discriminate.
+    - cbn [ok_seq] in Hok. destruct (ok_ins strict (map fst wp) i (map fst env)) as [dn1|] eqn:E1; try discriminate.
       assert (Hfp1 : is_decl i = true -> frame_pushed_l e (F ++ ECtx :: R) = true).
       { intros X. apply Hfp. simpl. rewrite X. reflexivity. }
       destruct (Hi wp env F R e dn1 HG HF E1 Hfp1) as [Hex Hdn].
@@ -562,7 +576,7 @@ Section Main.
         simpl in E1. destruct (mem n (map fst env)) eqn:Em; try discriminate. inversion E1; subst dn1. clear E1.
         cbn [spec_ins fst snd app].
         assert (HG1 : Good (EVar n b :: F) R) by (apply Good_cons; simpl; auto).
-        assert (HF1 : Fr (EVar n b :: F) ((n, b) :: env) wp) by (apply Fr_push_var; auto; apply mem_lookup_none; auto).
+        assert (HF1 : Fr rs (EVar n b :: F) ((n, b) :: env) wp) by (apply Fr_push_var; auto; apply mem_lookup_none; auto).
         assert (Hfp2 : existsb is_decl body = true -> frame_pushed_l e ((EVar n b :: F) ++ ECtx :: R) = true).
         { intros X. change ((EVar n b :: F) ++ ECtx :: R) with (EVar n b :: F ++ ECtx :: R). apply fp_cons. apply Hfp1. reflexivity. }
         destruct (IH wp ((n, b) :: env) (EVar n b :: F) R e dn' HG1 HF1 Hok Hfp2) as [V [HV [Hex2 Hnil]]].
@@ -590,13 +604,13 @@ Section Main.
   Proof. intros. apply fp_app. apply fp_here. auto. Qed.
 
   Lemma params_lemma : forall ps wp e V Fp R env dn0,
-    Good Fp R -> Forall is_varE V -> Fr (V ++ EFrame e :: Fp) env wp ->
+    Good Fp R -> Forall is_varE V -> Fr rs (V ++ EFrame e :: Fp) env wp ->
     ok_params ps (map fst env) = Some dn0 ->
     exists V' Fp', Forall is_varE V' /\
       exec_params e ps (st ((V ++ EFrame e :: Fp) ++ ECtx :: R) g) = Some (st ((V' ++ EFrame e :: Fp') ++ ECtx :: R) g) /\
-      Fr (V' ++ EFrame e :: Fp') (bind_params wp ps env) wp /\
+      Fr rs (V' ++ EFrame e :: Fp') (bind_params wp ps env) wp /\
       map fst (bind_params wp ps env) = dn0 /\
-      Good Fp' R /\ (TF Fp wp -> TF Fp' wp).
+      Good Fp' R /\ (TFw Fp wp -> TFw Fp' wp).
   Proof.
     induction ps as [|[n d] ps IH]; intros wp e V Fp R env dn0 HG HV HF Hok.
     - simpl in Hok. inversion Hok; subst. exists V, Fp. simpl.
@@ -614,17 +628,17 @@ Section Main.
       rewrite <- (Hd n).
       destruct (pval n (V ++ EFrame e :: Fp)) as [v|] eqn:Ep.
       + rewrite act_app_vars by assumption.
-        assert (HF' : Fr (V ++ EFrame e :: act n Fp) ((n, v) :: env) wp).
+        assert (HF' : Fr rs (V ++ EFrame e :: act n Fp) ((n, v) :: env) wp).
         { rewrite <- act_app_vars by assumption. apply Fr_act; auto. repeat split; auto. }
         assert (HG' : Good (act n Fp) R).
         { destruct HG as [G0 [G1 G2]]. repeat split; auto. apply act_not_ctx; auto. }
         destruct (IH wp e V (act n Fp) R ((n, v) :: env) dn0 HG' HV HF' Hok) as [V' [Fp' [A [B [C [D [E G]]]]]]].
-        exists V', Fp'. refine (conj A (conj B (conj C (conj D (conj E _))))). intros X. apply G. apply TF_act. auto.
+        exists V', Fp'. refine (conj A (conj B (conj C (conj D (conj E _))))). intros X. apply G. apply TFw_act. auto.
       + rewrite fl_true_none by assumption.
         unfold push_variable, frame_pushed. cbn [stk st].
         rewrite <- app_assoc. cbn [app]. rewrite fp_frame_in by (destruct Fp; discriminate).
         rewrite push_st.
-        assert (HF' : Fr ((EVar n d :: V) ++ EFrame e :: Fp) ((n, d) :: env) wp).
+        assert (HF' : Fr rs ((EVar n d :: V) ++ EFrame e :: Fp) ((n, d) :: env) wp).
         { cbn [app]. apply Fr_push_var; auto. repeat split; auto. }
         assert (HV' : Forall is_varE (EVar n d :: V)) by (constructor; simpl; auto).
         destruct (IH wp e (EVar n d :: V) Fp R ((n, d) :: env) dn0 HG HV' HF' Hok) as [V' [Fp' [A [B [C [D [E G]]]]]]].
@@ -635,11 +649,11 @@ Section Main.
   Lemma tmpl_lemma : forall e ps body, Forall normalP body -> tmplP (Tmpl e ps body).
   Proof.
     intros e ps body Hb wp F R par dn0 HG HT Hokp Hokb.
-    destruct (ok_seq (fun x => ok_ins true (map fst wp) x) body dn0) as [dnb|] eqn:Eb; try discriminate.
+    destruct (ok_seq (fun x => ok_ins strict (map fst wp) x) body dn0) as [dnb|] eqn:Eb; try discriminate.
     cbn [exec_ins spec_ins snd].
     destruct (has_decl ps body) eqn:Ehv.
     - rewrite push_st.
-      assert (HF0 : Fr ([] ++ EFrame e :: F) [] wp) by (apply Fr_push_frame; apply TF_Fr; auto).
+      assert (HF0 : Fr rs ([] ++ EFrame e :: F) [] wp) by (apply Fr_push_frame; apply TF_Fr; auto).
       destruct (params_lemma ps wp e [] F R [] dn0 HG (Forall_nil _) HF0 Hokp) as [V' [Fp' [A [B [C [D [E G]]]]]]].
       cbn [app] in B. cbn [app]. rewrite B.
       assert (HG2 : Good (V' ++ EFrame e :: Fp') R).
@@ -652,16 +666,16 @@ Section Main.
       replace (V2 ++ (V' ++ EFrame e :: Fp') ++ ECtx :: R) with ((V2 ++ V') ++ EFrame e :: (Fp' ++ ECtx :: R)).
       2:{ rewrite <- !app_assoc. cbn [app]. reflexivity. }
       rewrite pop_frame_st.
-      + destruct rs; cbn [andb].
+      + destruct HT as [HTw HT5]. case_eq rs; intros Ers; cbn [andb].
         * destruct E as [E0 [E1 E2]]. rewrite reset_params_st by assumption.
-          exists (map deact1 Fp'). split; auto. apply TF_deact. auto.
-        * exists Fp'. split; auto.
+          exists (map deact1 Fp'). split; auto. rewrite <- Ers. apply TF_deact. auto.
+        * exists Fp'. split; auto. split; auto. intros X. rewrite X in Ers. discriminate.
       + apply Forall_app. split; auto.
       + destruct Fp'; discriminate.
     - unfold has_decl in Ehv. apply orb_false_iff in Ehv. destruct Ehv as [E1 E2].
       destruct ps; try discriminate. cbn [exec_params bind_params fold_left]. simpl in Hokp. inversion Hokp; subst dn0.
       assert (Hfp : existsb is_decl body = true -> frame_pushed_l e (F ++ ECtx :: R) = true) by (intros X; congruence).
-      destruct (seq_lemma body Hb wp [] F R e dnb HG (TF_Fr _ _ HT) Eb Hfp) as [V2 [HV2 [Hex Hnil]]].
+      destruct (seq_lemma body Hb wp [] F R e dnb HG (TF_Fr _ _ _ HT) Eb Hfp) as [V2 [HV2 [Hex Hnil]]].
       rewrite Hex. rewrite (Hnil E2). unfold end_template. cbn [end_children app]. rewrite andb_false_r. exists F. split; auto.
   Qed.
 
@@ -669,17 +683,17 @@ Section Main.
     match x with
     | Tmpl e ps body =>
         match ok_params ps [] with
-        | Some dn0 => is_some (ok_seq (fun x => ok_ins true (map fst wp) x) body dn0)
+        | Some dn0 => is_some (ok_seq (fun x => ok_ins strict (map fst wp) x) body dn0)
         | None => false
         end
     | _ => false
     end.
 
   Lemma tseq_lemma : forall ts, Forall (fun i => normalP i /\ tmplP i) ts ->
-    forall wp F R par, Good F R -> TF F wp -> forallb (okT wp) ts = true ->
+    forall wp F R par, Good F R -> TF rs F wp -> forallb (okT wp) ts = true ->
     exists F', exec_seq (fun x => exec_ins rs par x) ts (st (F ++ ECtx :: R) g) =
                  Some (st (F' ++ ECtx :: R) g, flat_map (fun x => snd (spec_ins genv wp x [])) ts)
-               /\ TF F' wp.
+               /\ TF rs F' wp.
   Proof.
     induction 1 as [|i ts [_ Hi] Hts IH]; intros wp F R par HG HT Hok.
     - exists F. simpl. auto.
@@ -688,7 +702,7 @@ Section Main.
       destruct (ok_params ps []) as [dn0|] eqn:Ep; try discriminate.
       destruct (Hi wp F R par dn0 HG HT Ep Hok1) as [F1 [Hex HT1]].
       rewrite exec_seq_cons. rewrite Hex.
-      assert (HG1 : Good F1 R). { destruct HG as [G0 [G1 G2]]. destruct HT1 as [T0 _]. repeat split; auto. }
+      assert (HG1 : Good F1 R). { destruct HG as [G0 [G1 G2]]. destruct HT1 as [[T0 _] _]. repeat split; auto. }
       destruct (IH wp F1 R par HG1 HT1 Hok2) as [F2 [Hex2 HT2]].
       rewrite Hex2. exists F2. split; auto.
   Qed.
@@ -704,14 +718,16 @@ Section Main.
       cbn [exec_ins spec_ins fst snd]. rewrite get_variable_st by assumption.
       simpl in Hok. destruct HF as [H0 [Ha [Hb [Hc Hd]]]].
       destruct (lookup n env) as [b|] eqn:El.
-      + rewrite (Ha n b El). destruct (negb (mem n (map fst env)) && mem n (map fst wp)); inversion Hok; auto.
-      + rewrite (lookup_none_mem _ _ El) in Hok. cbn [negb andb] in Hok.
-        destruct (mem n (map fst wp)) eqn:Em; try discriminate. inversion Hok; subst.
-        rewrite Hb; auto. intros X. apply mem_in in X. congruence.
+      + rewrite (Ha n b El). destruct (strict && negb (mem n (map fst env)) && mem n (map fst wp)); inversion Hok; auto.
+      + assert (Hloc : loc n F = None).
+        { apply Hb; auto. case_eq rs; intros Ers; [left; reflexivity|]. right.
+          rewrite (Hmode Ers) in Hok. rewrite (lookup_none_mem _ _ El) in Hok. cbn [negb andb] in Hok.
+          destruct (mem n (map fst wp)) eqn:Em; try discriminate. intros X. apply mem_in in X. congruence. }
+        rewrite Hloc. destruct (strict && negb (mem n (map fst env)) && mem n (map fst wp)); inversion Hok; auto.
     - (* Block *) split; [|exact I]. intros wp env F R e0 dn' HG HF Hok Hfp.
       assert (Hb : Forall normalP body) by (eapply Forall_impl; [|exact H]; intros a [X _]; exact X).
       cbn [ok_ins] in Hok.
-      destruct (ok_seq (fun x => ok_ins true (map fst wp) x) body (map fst env)) as [dnb|] eqn:Eb; try discriminate.
+      destruct (ok_seq (fun x => ok_ins strict (map fst wp) x) body (map fst env)) as [dnb|] eqn:Eb; try discriminate.
       cbn [is_some] in Hok. inversion Hok; subst dn'.
       cbn [exec_ins spec_ins fst snd]. unfold has_decl. cbn [negb orb].
       destruct (existsb is_decl body) eqn:Ehv.
@@ -719,7 +735,7 @@ Section Main.
         assert (HG1 : Good (EFrame e :: F) R) by (apply Good_cons; simpl; auto).
         assert (Hfp1 : existsb is_decl body = true -> frame_pushed_l e ((EFrame e :: F) ++ ECtx :: R) = true).
         { intros _. cbn [app]. apply fp_here. destruct F; discriminate. }
-        destruct (seq_lemma body Hb wp env (EFrame e :: F) R e dnb HG1 (Fr_push_frame _ _ _ e HF) Eb Hfp1) as [V [HV [Hex Hnil]]].
+        destruct (seq_lemma body Hb wp env (EFrame e :: F) R e dnb HG1 (Fr_push_frame _ _ _ _ e HF) Eb Hfp1) as [V [HV [Hex Hnil]]].
         change (EFrame e :: F ++ ECtx :: R) with ((EFrame e :: F) ++ ECtx :: R). rewrite Hex.
         cbn [end_children app]. rewrite pop_frame_st; auto. destruct F; discriminate.
       + assert (Hfp1 : existsb is_decl body = true -> frame_pushed_l e (F ++ ECtx :: R) = true) by (intros X; congruence).
@@ -731,11 +747,11 @@ Section Main.
       destruct (forallb (okT wp) ts) eqn:Eok; try discriminate. inversion Hok; subst dn'.
       cbn [exec_ins spec_ins fst snd]. rewrite push_st. rewrite push_params_st.
       set (P := rev (map (fun p => EParam (fst p) (snd p)) wp)).
-      assert (HTP : TF P wp) by apply TF_params.
+      assert (HTP : TF rs P wp) by apply TF_params.
       assert (HGP : Good P (F ++ ECtx :: R)).
-      { apply Good_nested; auto. destruct HTP; auto. }
+      { apply Good_nested; auto. destruct HTP as [[T0 _] _]; auto. }
       destruct (tseq_lemma ts H wp P (F ++ ECtx :: R) e HGP HTP Eok) as [F' [Hex HT']].
-      rewrite Hex. rewrite pop_ctx_st. auto. destruct HT'; auto.
+      rewrite Hex. rewrite pop_ctx_st. auto. destruct HT' as [[T0 _] _]; auto.
     - (* Tmpl *) split.
       + intros wp env F R e0 dn' HG HF Hok. simpl in Hok. discriminate.
       + apply tmpl_lemma. eapply Forall_impl; [|exact H]. intros a [X _]; exact X.
@@ -779,25 +795,37 @@ Proof.
   change (mkV L (length L) (length L) true) with (st L (length L)). apply push_st.
 Qed.
 
-(* (b) main statement, with the exact guard *)
-Theorem varstack_refines_lexical_env_partial_thm : forall rs globals root,
-  ok_root true root = true -> impl_run rs globals root = Some (spec_run globals root).
+(* (b) main statement. strict = the guard of finding K-C01-1; it is only needed for the variant without the repair *)
+Theorem varstack_refines_lexical_env_gen : forall rs strict globals root,
+  (rs = false -> strict = true) ->
+  ok_root strict root = true -> impl_run rs globals root = Some (spec_run globals root).
 Proof.
-  intros rs globals root Hok. unfold ok_root in Hok. cbn [ok_ins forallb] in Hok.
+  intros rs strict globals root Hmode Hok. unfold ok_root in Hok. cbn [ok_ins forallb] in Hok.
   destruct root; try discriminate.
   destruct (ok_params ps []) as [dn0|] eqn:Ep; try discriminate.
   cbn [andb] in Hok.
-  destruct (is_some (ok_seq (fun x => ok_ins true (map fst (@nil (N * N))) x) body dn0)) eqn:Eb; try discriminate.
+  destruct (is_some (ok_seq (fun x => ok_ins strict (map fst (@nil (N * N))) x) body dn0)) eqn:Eb; try discriminate.
   unfold impl_run, spec_run. rewrite impl_start_st.
   set (genv := rev globals).
-  destruct (main_lemma rs genv (Tmpl e ps body)) as [_ HT]. cbn [tmplP] in HT.
+  destruct (main_lemma rs strict Hmode genv (Tmpl e ps body)) as [_ HT]. cbn [tmplP] in HT.
   assert (HG : Good genv [] (gseg genv)).
   { repeat split. constructor. unfold gseg. destruct (map _ genv); discriminate. exists [ECtx]. reflexivity. }
-  assert (HTF : TF [] []).
-  { repeat split. constructor. intros; discriminate. }
+  assert (HTF : TF rs [] []).
+  { split; [repeat split|]. constructor. intros; discriminate. intros; reflexivity. }
   destruct (HT [] [] (gseg genv) 0%N dn0 HG HTF Ep Eb) as [F' [Hex _]].
   cbn [app] in Hex. rewrite Hex. reflexivity.
 Qed.
+
+(* both variants, with the guard *)
+Theorem varstack_refines_lexical_env_partial_thm : forall rs globals root,
+  ok_root true root = true -> impl_run rs globals root = Some (spec_run globals root).
+Proof. intros. apply varstack_refines_lexical_env_gen with (strict := true); auto. Qed.
+
+(* the repaired variant, WITHOUT the guard: in particular a with-param the invoked template does not declare
+   is invisible to it (XSLT 1.0 11.6), whatever top-level binding has that name *)
+Theorem varstack_refines_lexical_env_thm : forall globals root,
+  ok_root false root = true -> impl_run true globals root = Some (spec_run globals root).
+Proof. intros. apply varstack_refines_lexical_env_gen with (strict := false); auto; intros; discriminate. Qed.
 
 (* the full statement fails: finding K-C01-1 (a with-param activated by one template instance stays
    active for the instances that follow under the same context marker) *)
